@@ -21,6 +21,7 @@ from dinosaur import time_integration as ti
 
 from dsim import kernel
 
+MAX_MINIMISED_PER_RUN = 2
 PROP = 'C14'
 I32 = jnp.int32
 
@@ -870,7 +871,8 @@ def run_one(seed, tier, opts, prop):
       continue
     seen.add(v['oracle'])
     case = cases[v['op_index']]
-    mini, evals = minimise(case, v['oracle'])
+    mini, evals = (minimise(case, v['oracle'])
+                   if len(out_v) < MAX_MINIMISED_PER_RUN else (case, 0))
     mlog, mv = execute([mini])
     mv = [x for x in mv if x['oracle'] == v['oracle']] or [v]
     rep = {'version': 1, 'property': PROP, 'engine': 'K', 'run_seed': seed,
